@@ -5,24 +5,42 @@ import NodisVerif.Proofs.AListLemmas2
 /-
   C19 helpers, part 3: the keyspace SCAN (`Api.scan`).
 
-  * `view`     : what SCAN looks at — per index record its name, deadline and cached type.
+  * `etype`, `view` : what a `SCAN … TYPE typ` call looks at — per index record its name, deadline
+    and type as the filter sees it (cached type; for a never-loaded record the type of the value in
+    the backend, which the call loads).
   * `scanPure` : the same loop as `Api.scan.go` on the view, without the store.
-  * `scan_out`, `scan_frame` : a SCAN call replies `scanPure (view s)` and changes nothing in the
-    store except the access counters (`count`) of index records.
+  * `scan_out` : the reply of a call is `scanPure (view s typ)` (any store).
+  * `ScanFrame`, `scan_frame` : on a proper index a call changes nothing but access counters and
+    the load state of records, and leaves `view · typ` unchanged.
 -/
 namespace NodisVerif.Proofs.C19Scan
 open NodisVerif.Spec.Scan NodisVerif.Proofs.C19Iter NodisVerif.Store
 open NodisVerif.Proofs.AListLemmas NodisVerif.Proofs.AListLemmas2
 
-/-- name, deadline, cached value type -/
+/-- name, deadline, value type as the TYPE filter sees it -/
 abbrev VEnt := Bytes × Int × Nat
 
-def proj (e : Bytes × Meta) : VEnt := (e.1, e.2.exp, e.2.vtype)
-def viewOf (idx : AList Meta) : List VEnt := idx.map proj
-def view (s : MState) : List VEnt := viewOf s.index
+/-- the type the TYPE filter of a `SCAN … TYPE typ` call uses for an index record: the cached
+    type; for a record that never had its value loaded (cold, no cached type) and a non-zero
+    `typ`, the type of the value the backend hands out (the call loads it) -/
+def etype (s : MState) (typ : Nat) (e : Bytes × Meta) : Nat :=
+  if typ ≠ 0 ∧ e.2.vtype = 0 ∧ e.2.value.isNone then
+    match loadValue s e.1 e.2 with
+    | some (v, _) => v.typeCode
+    | none => e.2.vtype
+  else e.2.vtype
+
+def proj (s : MState) (typ : Nat) (e : Bytes × Meta) : VEnt := (e.1, e.2.exp, etype s typ e)
+def viewOf (s : MState) (typ : Nat) (idx : AList Meta) : List VEnt := idx.map (proj s typ)
+/-- what a `SCAN … TYPE typ` call looks at -/
+def view (s : MState) (typ : Nat) : List VEnt := viewOf s typ s.index
 
 /-- forget the access counter of a record -/
 def zc (e : Bytes × Meta) : Bytes × Meta := (e.1, { e.2 with count := 0 })
+
+/-- forget everything a SCAN call may touch: the counter and what loading a value sets -/
+def zl (e : Bytes × Meta) : Bytes × Meta :=
+  (e.1, { e.2 with count := 0, value := none, vtype := 0, state := 0, oid := 0 })
 
 /-- `metadata.expired(now)` on a view entry -/
 def vexpired (e : VEnt) (now : Int) : Bool := e.2.1 != 0 && e.2.1 ≤ now
@@ -32,25 +50,24 @@ def keep (now : Int) (pat : Bytes) (typ : Nat) (e : VEnt) : Bool :=
   (Glob.matched pat e.1 && !vexpired e now) && !(decide (typ ≠ 0 ∧ e.2.2 ≠ typ))
 
 /-- `Api.scan.go` without the store -/
-def goPure (now : Int) (pat : Bytes) (typ : Nat) (keyLen : Int) :
+def goPure (now : Int) (pat : Bytes) (typ : Nat) :
     List VEnt → Int → Int → Int → List Bytes → Int × List Bytes
-  | [], _, iter, _, acc => (iter, acc.reverse)
+  | [], _, _, _, acc => (0, acc.reverse)
   | e :: rest, cursor, iter, count, acc =>
     let iter := iter + 1
     let cursor := wrap64 (cursor - 1)
-    if cursor > 0 then goPure now pat typ keyLen rest cursor iter count acc else
-    if iter > keyLen then (0, acc.reverse) else
+    if cursor > 0 then goPure now pat typ rest cursor iter count acc else
     if count = 0 then (iter, acc.reverse) else
     let count := wrap64 (count - 1)
-    if keep now pat typ e then goPure now pat typ keyLen rest cursor iter count (e.1 :: acc)
-    else goPure now pat typ keyLen rest cursor iter count acc
+    if keep now pat typ e then goPure now pat typ rest cursor iter count (e.1 :: acc)
+    else goPure now pat typ rest cursor iter count acc
 
 /-- `Api.scan` without the store: (next cursor, keys) -/
 def scanPure (v : List VEnt) (now : Int) (cursor : Int) (pat : Bytes) (count : Int) (typ : Nat) : Int × List Bytes :=
   let keyLen : Int := v.length
   if keyLen = 0 then (0, []) else
-  if cursor ≥ keyLen then (0, []) else
-  goPure now pat typ keyLen v cursor 0 count []
+  if cursor > keyLen then (0, []) else
+  goPure now pat typ v cursor 0 count []
 
 /-- the reply of `Api.scan` as a pair -/
 def scanOut : Out → Int × List Bytes
@@ -62,39 +79,60 @@ def scanStep (now : Int) (pat : Bytes) (count : Int) (typ : Nat) (s : MState) (c
   let r := Api.scan s now c pat count typ
   (r.1, scanOut r.2)
 
-/-! ## the store is untouched except for access counters -/
+/-! ## what a call leaves unchanged -/
 
-/-- equal up to the access counters of index records -/
-def SameButCount (s s' : MState) : Prop :=
-  s' = { s with index := s'.index } ∧ s'.index.map zc = s.index.map zc
+/-- the effect of one SCAN call (with TYPE `typ`) on the store: only the index changes; the view
+    of the call is unchanged; records change only in their counter and in what loading a value
+    sets (value, cached type, state, oid); without a TYPE filter only the counters change -/
+structure ScanFrame (typ : Nat) (s s' : MState) : Prop where
+  rest : s' = { s with index := s'.index }
+  sameView : s'.index.map (proj s typ) = s.index.map (proj s typ)
+  other : s'.index.map zl = s.index.map zl
+  untyped : typ = 0 → s'.index.map zc = s.index.map zc
 
-theorem SameButCount.refl (s : MState) : SameButCount s s := ⟨rfl, rfl⟩
+theorem loadValue_congr {s s' : MState} (h : s' = { s with index := s'.index }) (k : Bytes) (m : Meta) :
+    loadValue s' k m = loadValue s k m := by
+  rw [h]; rfl
 
-theorem SameButCount.trans {a b c : MState} (h1 : SameButCount a b) (h2 : SameButCount b c) : SameButCount a c := by
-  obtain ⟨e1, m1⟩ := h1
-  obtain ⟨e2, m2⟩ := h2
-  refine ⟨?_, m2.trans m1⟩
-  rw [e2, e1]
+theorem proj_congr {s s' : MState} (h : s' = { s with index := s'.index }) (typ : Nat) :
+    proj s' typ = proj s typ := by
+  funext e
+  simp only [proj, etype, loadValue_congr h]
 
-theorem viewOf_eq_of_zc {i j : AList Meta} (h : i.map zc = j.map zc) : viewOf i = viewOf j := by
-  have : ∀ (l : AList Meta), viewOf l = (l.map zc).map proj := by
-    intro l; simp [viewOf, List.map_map]; intro a b _; rfl
-  rw [this i, this j, h]
+theorem ScanFrame.refl (typ : Nat) (s : MState) : ScanFrame typ s s := ⟨rfl, rfl, rfl, fun _ => rfl⟩
 
-theorem SameButCount.view {s s' : MState} (h : SameButCount s s') : view s' = view s :=
-  viewOf_eq_of_zc h.2
+theorem ScanFrame.trans {typ : Nat} {a b c : MState} (h1 : ScanFrame typ a b) (h2 : ScanFrame typ b c) :
+    ScanFrame typ a c := by
+  refine ⟨?_, ?_, h2.other.trans h1.other, fun h => (h2.untyped h).trans (h1.untyped h)⟩
+  · have e1 := h1.rest; have e2 := h2.rest
+    rw [e2, e1]
+  · have := h2.sameView
+    rw [proj_congr h1.rest] at this
+    exact this.trans h1.sameView
 
-theorem sorted_iff_of_map_zc {i j : AList Meta} (h : i.map zc = j.map zc) : AList.Sorted i ↔ AList.Sorted j := by
-  have key : ∀ (l : AList Meta), AList.Sorted l ↔ (l.map zc).Pairwise KeyLt := by
+theorem ScanFrame.view_eq {typ : Nat} {s s' : MState} (h : ScanFrame typ s s') :
+    C19Scan.view s' typ = C19Scan.view s typ := by
+  unfold C19Scan.view viewOf
+  rw [proj_congr h.rest]; exact h.sameView
+
+theorem sorted_iff_of_map_zl {i j : AList Meta} (h : i.map zl = j.map zl) : AList.Sorted i ↔ AList.Sorted j := by
+  have key : ∀ (l : AList Meta), AList.Sorted l ↔ (l.map zl).Pairwise KeyLt := by
     intro l
     rw [sorted_iff_pairwise, List.pairwise_map]
     exact Iff.rfl
   rw [key i, key j, h]
 
-/-- replacing the record of a present key of a sorted index by one that differs in the counter only -/
-theorem map_zc_set (idx : AList Meta) (hs : AList.Sorted idx) (key : Bytes) (m m' : Meta)
-    (hget : AList.get? idx key = some m) (hm : zc (key, m') = zc (key, m)) :
-    (AList.set idx key m').map zc = idx.map zc := by
+theorem ScanFrame.sorted {typ : Nat} {s s' : MState} (h : ScanFrame typ s s') (hs : AList.Sorted s.index) :
+    AList.Sorted s'.index := (sorted_iff_of_map_zl h.other).2 hs
+
+theorem ScanFrame.length {typ : Nat} {s s' : MState} (h : ScanFrame typ s s') : s'.index.length = s.index.length := by
+  have := congrArg List.length h.other
+  simpa using this
+
+/-- replacing the record of a present key of a sorted index by one with the same image under `g` -/
+theorem map_set_of_eq {β : Type} (g : Bytes × Meta → β) (idx : AList Meta) (hs : AList.Sorted idx) (key : Bytes) (m m' : Meta)
+    (hget : AList.get? idx key = some m) (hm : g (key, m') = g (key, m)) :
+    (AList.set idx key m').map g = idx.map g := by
   induction idx with
   | nil => simp [AList.get?] at hget
   | cons a rest ih =>
@@ -112,123 +150,315 @@ theorem map_zc_set (idx : AList Meta) (hs : AList.Sorted idx) (key : Bytes) (m m
       have hnlt : Bytes.lt key k = false := lt_asymm k key hlt
       simp only [hnlt, Bool.false_eq_true, if_false, List.map_cons, ih hrest hget]
 
-theorem sameButCount_modMeta (s : MState) (hs : AList.Sorted s.index) (key : Bytes) (f : Meta → Meta)
-    (hf : ∀ m, zc (key, f m) = zc (key, m)) : SameButCount s (modMeta s key f) := by
-  unfold modMeta
-  cases hget : getMeta s key with
-  | none => exact SameButCount.refl s
-  | some m =>
-    refine ⟨rfl, ?_⟩
-    exact map_zc_set s.index hs key m (f m) hget (hf m)
+/-- a record update that the call's view, `zl` (and `zc` when untyped) do not see -/
+theorem scanFrame_putMeta (typ : Nat) (s : MState) (hs : AList.Sorted s.index) (key : Bytes) (m m' : Meta)
+    (hget : getMeta s key = some m)
+    (h1 : proj s typ (key, m') = proj s typ (key, m)) (h2 : zl (key, m') = zl (key, m))
+    (h3 : typ = 0 → zc (key, m') = zc (key, m)) : ScanFrame typ s (putMeta s key m') :=
+  ⟨rfl, map_set_of_eq _ s.index hs key m m' hget h1, map_set_of_eq _ s.index hs key m m' hget h2,
+    fun h => map_set_of_eq _ s.index hs key m m' hget (h3 h)⟩
 
-theorem SameButCount.sorted {s s' : MState} (h : SameButCount s s') (hs : AList.Sorted s.index) :
-    AList.Sorted s'.index := (sorted_iff_of_map_zc h.2).2 hs
+theorem getMeta_modMeta_other (s : MState) (key : Bytes) (f : Meta → Meta) (k : Bytes) (hk : k ≠ key) :
+    getMeta (modMeta s key f) k = getMeta s k := by
+  unfold modMeta
+  cases h : getMeta s key with
+  | none => rfl
+  | some m => exact get?_set_other s.index key _ k hk
+
+/-- the load step of `go`, as a function -/
+def loadFor (s : MState) (typ : Nat) (key : Bytes) (m : Meta) : MState × Nat :=
+  if typ ≠ 0 ∧ m.vtype = 0 ∧ m.value.isNone then
+    match loadValue s key m with
+    | some (v, oid) => (modMeta s key fun m' => ({ m' with oid := oid }.setValue v), v.typeCode)
+    | none => (s, m.vtype)
+  else (s, m.vtype)
+
+/-- the lock-and-load part of one visited entry: `rLockKey` bumps the counter, a TYPE filter on a
+    never-loaded record loads the value. `m` = the record as the walk sees it (snapshot). -/
+theorem visit_frame (typ : Nat) (s : MState) (hs : AList.Sorted s.index) (key : Bytes) (m : Meta)
+    (hget : getMeta s key = some m) :
+    let s1 := modMeta s key fun m => { m with count := m.count + 1 }
+    ScanFrame typ s (loadFor s1 typ key m).1 ∧ (loadFor s1 typ key m).2 = etype s typ (key, m) ∧
+    ScanFrame typ s s1 := by
+  intro s1
+  have hs1 : s1 = putMeta s key { m with count := m.count + 1 } := by
+    simp only [s1, modMeta, hget]
+  have hF1 : ScanFrame typ s s1 := by
+    rw [hs1]
+    exact scanFrame_putMeta typ s hs key m _ hget rfl rfl (fun _ => rfl)
+  have hget1 : getMeta s1 key = some { m with count := m.count + 1 } := by
+    rw [hs1]; exact get?_set_same s.index key _
+  have hload : loadValue s1 key m = loadValue s key m := loadValue_congr hF1.rest key m
+  refine ⟨?_, ?_, hF1⟩
+  · unfold loadFor
+    split
+    · rename_i hc
+      rw [hload]
+      cases hl : loadValue s key m with
+      | none => exact hF1
+      | some vo =>
+        obtain ⟨v, oid⟩ := vo
+        simp only
+        refine hF1.trans ?_
+        have : (modMeta s1 key fun m' => ({ m' with oid := oid }.setValue v)) =
+            putMeta s1 key ({ ({ m with count := m.count + 1 } : Meta) with oid := oid }.setValue v) := by
+          simp only [modMeta, hget1]
+        rw [this]
+        apply scanFrame_putMeta typ s1 (hF1.sorted hs) key _ _ hget1
+        · -- the loaded record shows the type the view had already announced
+          have hl1 : loadValue s1 key { m with count := m.count + 1 } = some (v, oid) := by
+            rw [← hl, ← hload]; rfl
+          have e1 : etype s1 typ (key, { m with count := m.count + 1 }) = v.typeCode := by
+            rw [etype, if_pos ⟨hc.1, hc.2.1, hc.2.2⟩]
+            simp only [hl1]
+          have e2 : etype s1 typ (key, ({ ({ m with count := m.count + 1 } : Meta) with oid := oid }.setValue v))
+              = v.typeCode := by
+            rw [etype, if_neg (by simp [Meta.setValue])]
+            rfl
+          simp only [proj, e1, e2]
+          rfl
+        · rfl
+        · intro h0; exact absurd h0 hc.1
+    · exact hF1
+  · unfold loadFor etype
+    rw [hload]
+    split
+    · cases hl : loadValue s key m with
+      | none => rfl
+      | some vo => rfl
+    · rfl
 
 /-! ## `Api.scan.go` = `goPure` on the view -/
 
-theorem go_out (now : Int) (pat : Bytes) (typ : Nat) (keyLen : Int) :
+theorem go_cons (now : Int) (pat : Bytes) (typ : Nat) (key : Bytes) (m : Meta) (rest : List (Bytes × Meta))
+    (s : MState) (cursor iter count : Int) (acc : List Bytes) :
+    Api.scan.go now pat typ ((key, m) :: rest) s cursor iter count acc =
+      if wrap64 (cursor - 1) > 0 then Api.scan.go now pat typ rest s (wrap64 (cursor - 1)) (iter + 1) count acc else
+      if count = 0 then (s, iter + 1, acc.reverse) else
+      if (Glob.matched pat key && !m.expired now) = true then
+        if typ ≠ 0 ∧ (loadFor (modMeta s key fun m => { m with count := m.count + 1 }) typ key m).2 ≠ typ then
+          Api.scan.go now pat typ rest (loadFor (modMeta s key fun m => { m with count := m.count + 1 }) typ key m).1
+            (wrap64 (cursor - 1)) (iter + 1) (wrap64 (count - 1)) acc
+        else
+          Api.scan.go now pat typ rest (loadFor (modMeta s key fun m => { m with count := m.count + 1 }) typ key m).1
+            (wrap64 (cursor - 1)) (iter + 1) (wrap64 (count - 1)) (key :: acc)
+      else Api.scan.go now pat typ rest (modMeta s key fun m => { m with count := m.count + 1 })
+            (wrap64 (cursor - 1)) (iter + 1) (wrap64 (count - 1)) acc := by
+  rw [Api.scan.go]
+  rfl
+
+/-- the walk over the snapshot `ents` of the index: its reply is `goPure` on the view, its effect
+    on the store is a `ScanFrame`. The entries still to be walked over are untouched so far. -/
+theorem go_spec (now : Int) (pat : Bytes) (typ : Nat) :
     ∀ (ents : List (Bytes × Meta)) (s : MState) (cursor iter count : Int) (acc : List Bytes),
-      (Api.scan.go now pat typ keyLen ents s cursor iter count acc).2 =
-        goPure now pat typ keyLen (viewOf ents) cursor iter count acc := by
+      AList.Sorted s.index → AList.Sorted ents → (∀ e ∈ ents, getMeta s e.1 = some e.2) →
+      (Api.scan.go now pat typ ents s cursor iter count acc).2 =
+        goPure now pat typ (viewOf s typ ents) cursor iter count acc ∧
+      ScanFrame typ s (Api.scan.go now pat typ ents s cursor iter count acc).1 := by
+  intro ents
+  induction ents with
+  | nil => intro s cursor iter count acc _ _ _; simp [Api.scan.go, goPure, viewOf, ScanFrame.refl]
+  | cons e rest ih =>
+    intro s cursor iter count acc hs hents hgets
+    obtain ⟨key, m⟩ := e
+    have hv : viewOf s typ ((key, m) :: rest) = proj s typ (key, m) :: viewOf s typ rest := rfl
+    obtain ⟨hrest, hall⟩ := sorted_cons (key, m) rest hents
+    have hget : getMeta s key = some m := hgets (key, m) List.mem_cons_self
+    rw [hv, go_cons, goPure]
+    simp only
+    -- after any update of `key`'s record the entries of `rest` are still untouched
+    have hkeep : ∀ (s' : MState), ScanFrame typ s s' → (∀ k, k ≠ key → getMeta s' k = getMeta s k) →
+        AList.Sorted s'.index ∧ (∀ e ∈ rest, getMeta s' e.1 = some e.2) ∧ viewOf s' typ rest = viewOf s typ rest := by
+      intro s' hF hoth
+      refine ⟨hF.sorted hs, ?_, by unfold viewOf; rw [proj_congr hF.rest]⟩
+      intro e he
+      have hne : e.1 ≠ key := fun h => by
+        have := hall e he
+        unfold KeyLt at this
+        rw [h] at this
+        simp [lt_irrefl] at this
+      rw [hoth e.1 hne]; exact hgets e (List.mem_cons_of_mem _ he)
+    by_cases h1 : wrap64 (cursor - 1) > 0
+    · simp only [h1, if_true]
+      exact ih s _ _ _ _ hs hrest (fun e he => hgets e (List.mem_cons_of_mem _ he))
+    · simp only [h1, if_false]
+      by_cases h3 : count = 0
+      · simp only [h3, if_true]; exact ⟨trivial, ScanFrame.refl typ s⟩
+      · simp only [h3, if_false]
+        obtain ⟨hFl, hvt, hF1⟩ := visit_frame typ s hs key m hget
+        have hoth1 : ∀ k, k ≠ key → getMeta (modMeta s key fun m => { m with count := m.count + 1 }) k = getMeta s k :=
+          fun k hk => getMeta_modMeta_other s key _ k hk
+        have hothl : ∀ k, k ≠ key →
+            getMeta (loadFor (modMeta s key fun m => { m with count := m.count + 1 }) typ key m).1 k = getMeta s k := by
+          intro k hk
+          rw [← hoth1 k hk]
+          unfold loadFor
+          split
+          · split
+            · exact getMeta_modMeta_other _ key _ k hk
+            · rfl
+          · rfl
+        have hexp : m.expired now = vexpired (proj s typ (key, m)) now := rfl
+        by_cases h4 : (Glob.matched pat key && !m.expired now) = true
+        · rw [if_pos h4, hvt]
+          obtain ⟨hs', hg', hv'⟩ := hkeep _ hFl hothl
+          by_cases h5 : typ ≠ 0 ∧ etype s typ (key, m) ≠ typ
+          · have hk : keep now pat typ (proj s typ (key, m)) = false := by
+              simp only [keep, proj]
+              simp [h5]
+            rw [if_pos h5, hk]
+            simp only [Bool.false_eq_true, if_false]
+            obtain ⟨i1, i2⟩ := ih _ (wrap64 (cursor - 1)) (iter + 1) (wrap64 (count - 1)) acc hs' hrest hg'
+            rw [hv'] at i1
+            exact ⟨i1, hFl.trans i2⟩
+          · have hk : keep now pat typ (proj s typ (key, m)) = true := by
+              simp only [keep, ← hexp]
+              simp only [proj, h4, Bool.true_and]
+              simp [h5]
+            rw [if_neg h5, hk]
+            simp only [if_true]
+            obtain ⟨i1, i2⟩ := ih _ (wrap64 (cursor - 1)) (iter + 1) (wrap64 (count - 1)) (key :: acc) hs' hrest hg'
+            rw [hv'] at i1
+            exact ⟨i1, hFl.trans i2⟩
+        · have hk : keep now pat typ (proj s typ (key, m)) = false := by
+            simp only [keep, ← hexp]
+            simp only [proj]
+            simp only [Bool.not_eq_true] at h4
+            simp [h4]
+          rw [if_neg h4, hk]
+          simp only [Bool.false_eq_true, if_false]
+          obtain ⟨hs', hg', hv'⟩ := hkeep _ hF1 hoth1
+          obtain ⟨i1, i2⟩ := ih _ (wrap64 (cursor - 1)) (iter + 1) (wrap64 (count - 1)) acc hs' hrest hg'
+          rw [hv'] at i1
+          exact ⟨i1, hF1.trans i2⟩
+
+/-- the reply of a SCAN call is `scanPure` of the view, and the call is a `ScanFrame` -/
+theorem scan_spec (s : MState) (hs : AList.Sorted s.index) (now cursor : Int) (pat : Bytes) (count : Int) (typ : Nat) :
+    (Api.scan s now cursor pat count typ).2 =
+      .many [.int (scanPure (view s typ) now cursor pat count typ).1, .slist (scanPure (view s typ) now cursor pat count typ).2] ∧
+    ScanFrame typ s (Api.scan s now cursor pat count typ).1 := by
+  unfold Api.scan scanPure
+  have hl : (view s typ).length = s.index.length := by simp [view, viewOf]
+  simp only [hl]
+  by_cases h1 : ((s.index.length : Nat) : Int) = 0
+  · simp only [h1, if_true]; exact ⟨trivial, ScanFrame.refl typ s⟩
+  · simp only [h1, if_false]
+    by_cases h2 : cursor > ((s.index.length : Nat) : Int)
+    · simp only [h2, if_true]; exact ⟨trivial, ScanFrame.refl typ s⟩
+    · simp only [h2, if_false]
+      obtain ⟨g1, g2⟩ := go_spec now pat typ s.index s cursor 0 count [] hs hs
+        (fun e he => get?_of_mem s.index hs e.1 e.2 he)
+      simp only [view]
+      rw [← g1]
+      exact ⟨rfl, g2⟩
+
+/-! the reply alone, on any store (no btree hypothesis): only the index ever changes during a call -/
+
+def RestEq (s s' : MState) : Prop := s' = { s with index := s'.index }
+
+theorem RestEq.trans {a b c : MState} (h1 : RestEq a b) (h2 : RestEq b c) : RestEq a c := by
+  unfold RestEq at *; rw [h2, h1]
+
+theorem restEq_modMeta (s : MState) (key : Bytes) (f : Meta → Meta) : RestEq s (modMeta s key f) := by
+  unfold modMeta RestEq
+  cases getMeta s key <;> rfl
+
+theorem restEq_loadFor (s : MState) (typ : Nat) (key : Bytes) (m : Meta) : RestEq s (loadFor s typ key m).1 := by
+  unfold loadFor
+  split
+  · split
+    · exact restEq_modMeta s key _
+    · rfl
+  · rfl
+
+theorem loadFor_snd (s s0 : MState) (h : RestEq s0 s) (typ : Nat) (key : Bytes) (m : Meta) :
+    (loadFor s typ key m).2 = etype s0 typ (key, m) := by
+  unfold loadFor etype
+  rw [loadValue_congr h]
+  split
+  · cases loadValue s0 key m with
+    | none => rfl
+    | some vo => rfl
+  · rfl
+
+theorem go_out (now : Int) (pat : Bytes) (typ : Nat) :
+    ∀ (ents : List (Bytes × Meta)) (s : MState) (cursor iter count : Int) (acc : List Bytes),
+      (Api.scan.go now pat typ ents s cursor iter count acc).2 =
+        goPure now pat typ (viewOf s typ ents) cursor iter count acc := by
   intro ents
   induction ents with
   | nil => intro s cursor iter count acc; simp [Api.scan.go, goPure, viewOf]
   | cons e rest ih =>
     intro s cursor iter count acc
     obtain ⟨key, m⟩ := e
-    have hv : viewOf ((key, m) :: rest) = proj (key, m) :: viewOf rest := rfl
-    rw [hv]
-    simp only [Api.scan.go, goPure]
+    have hv : viewOf s typ ((key, m) :: rest) = proj s typ (key, m) :: viewOf s typ rest := rfl
+    rw [hv, go_cons, goPure]
+    simp only
+    have hR1 : RestEq s (modMeta s key fun m => { m with count := m.count + 1 }) := restEq_modMeta s key _
+    have hRl := hR1.trans (restEq_loadFor (modMeta s key fun m => { m with count := m.count + 1 }) typ key m)
+    have hvt := loadFor_snd _ s hR1 typ key m
+    have hv1 : viewOf (modMeta s key fun m => { m with count := m.count + 1 }) typ rest = viewOf s typ rest := by
+      unfold viewOf; rw [proj_congr hR1]
+    have hvl : viewOf (loadFor (modMeta s key fun m => { m with count := m.count + 1 }) typ key m).1 typ rest
+        = viewOf s typ rest := by
+      unfold viewOf; rw [proj_congr hRl]
     by_cases h1 : wrap64 (cursor - 1) > 0
     · simp only [h1, if_true]; exact ih _ _ _ _ _
     · simp only [h1, if_false]
-      by_cases h2 : iter + 1 > keyLen
-      · simp only [h2, if_true]
-      · simp only [h2, if_false]
-        by_cases h3 : count = 0
-        · simp only [h3, if_true]
-        · simp only [h3, if_false]
-          have hexp : m.expired now = vexpired (proj (key, m)) now := rfl
-          by_cases h4 : (Glob.matched pat key && !m.expired now) = true
-          · by_cases h5 : typ ≠ 0 ∧ m.vtype ≠ typ
-            · have hk : keep now pat typ (proj (key, m)) = false := by
-                simp only [keep, proj]
-                simp [h5]
-              rw [if_pos h4, if_pos h5, hk]
-              simp only [Bool.false_eq_true, if_false]
-              exact ih _ _ _ _ _
-            · have hk : keep now pat typ (proj (key, m)) = true := by
-                simp only [keep, ← hexp]
-                simp only [proj, h4, Bool.true_and]
-                simp [h5]
-              rw [if_pos h4, if_neg h5, hk]
-              simp only [if_true]
-              exact ih _ _ _ _ _
-          · have hk : keep now pat typ (proj (key, m)) = false := by
-              simp only [keep, ← hexp]
-              simp only [proj]
-              simp only [Bool.not_eq_true] at h4
-              simp [h4]
-            rw [if_neg h4, hk]
+      by_cases h3 : count = 0
+      · simp only [h3, if_true]
+      · simp only [h3, if_false]
+        have hexp : m.expired now = vexpired (proj s typ (key, m)) now := rfl
+        by_cases h4 : (Glob.matched pat key && !m.expired now) = true
+        · rw [if_pos h4, hvt]
+          by_cases h5 : typ ≠ 0 ∧ etype s typ (key, m) ≠ typ
+          · have hk : keep now pat typ (proj s typ (key, m)) = false := by
+              simp only [keep, proj]
+              simp [h5]
+            rw [if_pos h5, hk]
             simp only [Bool.false_eq_true, if_false]
-            exact ih _ _ _ _ _
+            rw [ih, hvl]
+          · have hk : keep now pat typ (proj s typ (key, m)) = true := by
+              simp only [keep, ← hexp]
+              simp only [proj, h4, Bool.true_and]
+              simp [h5]
+            rw [if_neg h5, hk]
+            simp only [if_true]
+            rw [ih, hvl]
+            rfl
+        · have hk : keep now pat typ (proj s typ (key, m)) = false := by
+            simp only [keep, ← hexp]
+            simp only [proj]
+            simp only [Bool.not_eq_true] at h4
+            simp [h4]
+          rw [if_neg h4, hk]
+          simp only [Bool.false_eq_true, if_false]
+          rw [ih, hv1]
 
-theorem go_frame (now : Int) (pat : Bytes) (typ : Nat) (keyLen : Int) :
-    ∀ (ents : List (Bytes × Meta)) (s : MState) (cursor iter count : Int) (acc : List Bytes),
-      AList.Sorted s.index →
-      SameButCount s (Api.scan.go now pat typ keyLen ents s cursor iter count acc).1 := by
-  intro ents
-  induction ents with
-  | nil => intro s cursor iter count acc _; simp only [Api.scan.go]; exact SameButCount.refl s
-  | cons e rest ih =>
-    intro s cursor iter count acc hs
-    obtain ⟨key, m⟩ := e
-    simp only [Api.scan.go]
-    have hmod : SameButCount s (modMeta s key fun m => { m with count := m.count + 1 }) :=
-      sameButCount_modMeta s hs key _ (fun _ => rfl)
-    split
-    · exact ih _ _ _ _ _ hs
-    · split
-      · exact SameButCount.refl s
-      · split
-        · exact SameButCount.refl s
-        · split
-          · split
-            · exact hmod.trans (ih _ _ _ _ _ (hmod.sorted hs))
-            · exact hmod.trans (ih _ _ _ _ _ (hmod.sorted hs))
-          · exact hmod.trans (ih _ _ _ _ _ (hmod.sorted hs))
-
-/-- the reply of a SCAN call is `scanPure` of the view: it does not depend on anything else in the
-    store (values hot or cold, storage backend, counters, ...) -/
+/-- the reply of a SCAN call (any store) is `scanPure` of the view of the call -/
 theorem scan_out (s : MState) (now cursor : Int) (pat : Bytes) (count : Int) (typ : Nat) :
     (Api.scan s now cursor pat count typ).2 =
-      .many [.int (scanPure (view s) now cursor pat count typ).1, .slist (scanPure (view s) now cursor pat count typ).2] := by
+      .many [.int (scanPure (view s typ) now cursor pat count typ).1, .slist (scanPure (view s typ) now cursor pat count typ).2] := by
   unfold Api.scan scanPure
-  have hl : (view s).length = s.index.length := by simp [view, viewOf]
+  have hl : (view s typ).length = s.index.length := by simp [view, viewOf]
   simp only [hl]
   by_cases h1 : ((s.index.length : Nat) : Int) = 0
   · simp only [h1, if_true]
   · simp only [h1, if_false]
-    by_cases h2 : cursor ≥ ((s.index.length : Nat) : Int)
+    by_cases h2 : cursor > ((s.index.length : Nat) : Int)
     · simp only [h2, if_true]
     · simp only [h2, if_false]
-      have := go_out now pat typ (s.index.length : Int) s.index s cursor 0 count []
+      have := go_out now pat typ s.index s cursor 0 count []
       simp only [view]
       rw [← this]
 
 theorem scanStep_out (now : Int) (pat : Bytes) (count : Int) (typ : Nat) (s : MState) (c : Int) :
-    (scanStep now pat count typ s c).2 = scanPure (view s) now c pat count typ := by
+    (scanStep now pat count typ s c).2 = scanPure (view s typ) now c pat count typ := by
   simp only [scanStep, scan_out, scanOut]
 
-/-- a SCAN call changes nothing but access counters (in a store whose index is a proper btree) -/
+/-- a SCAN call changes nothing but access counters and (TYPE given) the load state of records -/
 theorem scan_frame (s : MState) (hs : AList.Sorted s.index) (now cursor : Int) (pat : Bytes) (count : Int) (typ : Nat) :
-    SameButCount s (Api.scan s now cursor pat count typ).1 := by
-  unfold Api.scan
-  simp only
-  split
-  · exact SameButCount.refl s
-  · split
-    · exact SameButCount.refl s
-    · exact go_frame now pat typ _ s.index s cursor 0 count [] hs
+    ScanFrame typ s (Api.scan s now cursor pat count typ).1 :=
+  (scan_spec s hs now cursor pat count typ).2
 
 end NodisVerif.Proofs.C19Scan
